@@ -547,7 +547,9 @@ def check_case(case, ev):
                 ran3 = {f for f, _ in ctx3.log}
                 if not ran3 <= active:
                     raise Violation("c16.upstream_ran", f"[{tag} [interval {sorted(names)} nested]] nodes outside the entry points' downstream closure executed: {sorted(ran3 - active)}", history=False, nested=True)
-                if out3.status != "completed" or out3.values != out2.values:
+                # (nesting shifts WHEN a value arrives; with a defaulted consumer feeding / being a waiter the early value may
+                # legitimately stick - see stale_possible above - so values are compared only where timing cannot matter)
+                if out3.status != "completed" or (out3.values != out2.values and not stale_possible) or set(out3.values) != set(out2.values):
                     raise Violation("c16.nested_variant_differs", f"[{tag}] with {sorted(names)} run as a nested graph node the result is {out3.brief()}; flat: {out2.brief()}")
                 labels.add("interval_nested_" + ("inside_scope" if names <= active else "outside_scope"))
     # the same call as a one-item map(): graph default, run-time select and on_missing mean the same there
